@@ -23,6 +23,10 @@ func init() {
 }
 
 func setupC08(x *Ctx) {
+	if x.Feat(FeatHelloMatrix) && x.Chance("hello-matrix", 0.25) {
+		c08HelloMatrix(x)
+		return
+	}
 	switch x.Biased("c08-engine", 3, 0.55) {
 	case 0:
 		c08Ship(x)
@@ -51,6 +55,48 @@ func c08Ship(x *Ctx) {
 		checkNoWedge(x)
 		x.NonTrivial()
 		x.SetSample(map[string]any{"engine": "ship", "role": s.role, "deviant_classes": s.devClasses})
+	})
+}
+
+// c08HelloMatrix: the connection is led into one of its hello listen states and
+// then receives one hello message whose members are drawn uniformly from all
+// combinations (phase x waiting x prolongationRequest, each possibly absent) -
+// the product of the per-frame chances of the general generator is far too
+// small for the rarer cells - followed by the usual random events.
+func c08HelloMatrix(x *Ctx) {
+	x.SigAdd("engine=ship-hello-matrix")
+	o := c01Opts()
+	o.devRate = 0.3
+	o.maxEvents = 24
+	target := 0
+	switch x.Choose("hm-setup", 3) {
+	case 0: // server, peer not trusted, waiting allowed: PENDING_LISTEN
+		o.roles, o.trustModes, o.noWaiting, target = []string{"server"}, []string{"none"}, 0, 11
+		o.userPlans = []string{"none", "none", "approve", "cancel"}
+	case 1: // server, trusted: READY_LISTEN
+		o.roles, o.trustModes, target = []string{"server"}, []string{"paired", "auto"}, 8
+	default: // client: READY_LISTEN
+		o.roles, target = []string{"client"}, 8
+	}
+	phases := []string{"ready", "pending", "aborted", "junk", ""}
+	phase := phases[x.Choose("hm-phase", len(phases))]
+	w := waitingVals[x.Choose("hm-waiting", len(waitingVals))]
+	p := x.Choose("hm-prolong", 3)
+	n := 1 + x.Choose("hm-repeat", 2)
+	x.SigAdd(fmt.Sprintf("cell=%d/%s/%d/%d", target, phase, w, p))
+	o.inject = func(state int) (string, string, bool) {
+		if n > 0 && state == target {
+			n--
+			x.Probe("hello-cell-delivered")
+			return fHello(phase, w, p), "hello-cell:" + phase, true
+		}
+		return "", "", false
+	}
+	s := newShip1(x, o)
+	x.OnFinal(func() {
+		checkNoWedge(x)
+		x.NonTrivial()
+		x.SetSample(map[string]any{"engine": "ship-hello-matrix", "role": s.role, "listen_state": target, "hello": map[string]any{"phase": phase, "waiting": w, "prolongationRequest": p}})
 	})
 }
 
